@@ -214,7 +214,8 @@ Fixpoint mon_run (strong : bool) (MI U : Z) (m : mon) (is : list item) : bool :=
               predicate: residual-aware (not strong)
    which = 2  same case/obs; predicate: the property's wording (strong)
    which = 3  the real pipeline: case = (max cutoff mark dec T U nsrc (op ...))
-                dec 0 raw | 1 json;  op = (0) Maintenance | (1 id isNew cur soff bytes valid)
+                dec 0 raw | 1 json | 2 cri;  op = (0) Maintenance | (1 id isNew cur soff bytes valid)
+                valid: 0 garbage | 1 well-formed (cri: full row) | 2 cri partial row
               obs = per op: (0) refused | (1 payload mark) | (2) panic | (3) lost; Maintenance: (counters)  *)
 
 Definition as_decision_bits (s : sx) : option (list bool) := as_list as_bool s.
@@ -329,7 +330,11 @@ Definition c20_admit_model (case : sx) : option sx :=
    call, so every gap is 0 (quick iff 0 < MI; the harness configures MI = 1 hour, the model MI = 1).
    raw decoder: always accepts, the message is the bytes without their last byte;
    json: the harness only sends records that are one JSON object (valid = 1) or garbage (valid = 0),
-   so the decoder accepts the bytes it is shown iff valid and they still hold the whole object. *)
+   so the decoder accepts the bytes it is shown iff valid and they still hold the whole object.
+   cri: the harness only sends rows  <30-byte time> SP std(out|err) SP (F|P) SP log  (valid = 1 full,
+   2 partial; header = 40 bytes, limits >= 41 so a cut keeps it) or garbage without any space
+   (valid = 0: DecodeCRI fails on it and on every prefix); the row time is the same in every row, so
+   every gap is 0 as for the other decoders; the message is row.Log. *)
 Definition strip_nl (b : bytes) : bytes :=
   match rev_append b [] with
   | c :: r => if N.eqb c NL then rev_append r [] else b
@@ -338,21 +343,24 @@ Definition strip_nl (b : bytes) : bytes :=
 
 Record pcase := { p_cfg : in_cfg; p_dec : Z; p_T : Z; p_U : Z; p_n : nat }.
 
-Inductive pop := PMaint | PIn (id : nat) (isNew : bool) (cur soff : Z) (b : bytes) (valid : bool).
+Inductive pop := PMaint | PIn (id : nat) (isNew : bool) (cur soff : Z) (b : bytes) (valid : Z).
 
 Definition pop_of_sx (s : sx) : option pop :=
   match s with
   | SL [SZ 0] => Some PMaint
-  | SL [SZ 1; id; isNew; SZ cur; SZ soff; SB b; valid] =>
-      match as_nat id, as_bool isNew, as_bool valid with
-      | Some id, Some isNew, Some valid => Some (PIn id isNew cur soff b valid)
-      | _, _, _ => None
+  | SL [SZ 1; id; isNew; SZ cur; SZ soff; SB b; SZ valid] =>
+      match as_nat id, as_bool isNew with
+      | Some id, Some isNew => Some (PIn id isNew cur soff b valid)
+      | _, _ => None
       end
   | _ => None
   end.
 
-Definition payload (dec : Z) (b' : bytes) : bytes :=
-  if dec =? 0 then removelast b' else strip_nl b'.
+Definition cri_header : nat := 40.
+Definition payload (dec valid : Z) (b' : bytes) : bytes :=
+  if dec =? 0 then removelast b'
+  else if dec =? 1 then strip_nl b'
+  else if valid =? 2 then removelast (skipn cri_header b') else skipn cri_header b'.
 
 Definition pstep (pc : pcase) (ms : list (option src)) (o : pop) : list (option src) * sx :=
   match o with
@@ -360,8 +368,10 @@ Definition pstep (pc : pcase) (ms : list (option src)) (o : pop) : list (option 
       let ms' := map (maint_step (p_U pc)) ms in (ms', SL (map (fun s => SZ (obs_counter s)) ms'))
   | PIn id isNew cur soff b valid =>
       let dok := fun b' : bytes =>
-        if p_dec pc =? 0 then true else valid && N_eqb_list (strip_nl b') (strip_nl b) in
-      match in_stage1 (p_cfg pc) (fun _ => Some false) cur soff b with
+        if p_dec pc =? 1 then (valid =? 1) && N_eqb_list (strip_nl b') (strip_nl b) else true in
+      let cri := fun _ : bytes =>
+        if p_dec pc =? 2 then (if valid =? 0 then None else Some (valid =? 2)) else Some false in
+      match in_stage1 (p_cfg pc) cri cur soff b with
       | S1Refused _ => (ms, SL [SZ 0])
       | S1Crash => (ms, SL [SZ 2])
       | S1Go b' cut consult =>
@@ -375,7 +385,7 @@ Definition pstep (pc : pcase) (ms : list (option src)) (o : pop) : list (option 
               end
             else (ms, false) in
           match in_stage2 (p_cfg pc) dok b' cut consult spam with
-          | Delivered d mark => (ms', SL [SZ 1; SB (payload (p_dec pc) d); of_bool mark])
+          | Delivered d mark => (ms', SL [SZ 1; SB (payload (p_dec pc) valid d); of_bool mark])
           | _ => (ms', SL [SZ 0])
           end
       end
@@ -392,7 +402,8 @@ Definition c20_pipe_model (case : sx) : option sx :=
   | SL [SZ max; cutoff; mark; SZ dec; SZ T; SZ U; n; SL ops] =>
       match as_bool cutoff, as_bool mark, as_nat n, opt_map pop_of_sx ops with
       | Some cutoff, Some mark, Some n, Some ops =>
-          let pc := {| p_cfg := {| max_size := max; cut_on := cutoff; mark_on := mark; as_thr := T |};
+          let pc := {| p_cfg := {| max_size := max; cut_on := cutoff; mark_on := mark; as_thr := T;
+                                   is_cri := dec =? 2 |};
                        p_dec := dec; p_T := T; p_U := U; p_n := n |} in
           if forallb (fun o => match o with PIn id _ _ _ _ _ => (id <? n)%nat | PMaint => true end) ops
           then Some (SL (prun pc (repeat None n) ops)) else None
